@@ -7,6 +7,7 @@ import (
 	"os"
 	"runtime"
 	"sort"
+	"strconv"
 	"strings"
 	"sync"
 	"testing"
@@ -71,9 +72,16 @@ type Scenario interface {
 
 // World is one simulated run.
 type World struct {
-	T    *testing.T
-	Tape *Tape
-	Prof Profile
+	// LockYieldIn is called with the stack of a goroutine about to be held at a lock-yield point (d=+1; it returns a
+	// tag, "" for none) and again with that tag when the goroutine carries on (d=-1)
+	LockYieldIn func(stackOrTag string, d int) string
+	OnYieldSite func(site, detail, node string) // a hand-placed yield site was passed (enabled or not); node = name of the hook's object, if it has one
+	lockMarks   bool                            // some "lock:" site is enabled in this run: keep the per-goroutine counts
+	lockDepth   map[uint64]int                  // instrumented locks held, by goroutine
+	rootG       uint64                          // the scheduler's goroutine
+	T           *testing.T
+	Tape        *Tape
+	Prof        Profile
 
 	mu       sync.Mutex
 	gates    map[string]*Event
@@ -149,6 +157,12 @@ func (w *World) installHooks() {
 		}
 	}
 	verifhook.YieldFn = func(site, detail string, obj any) {
+		if w.OnYieldSite != nil && !strings.HasPrefix(site, "lock") && !strings.HasPrefix(site, "unlock") {
+			w.mu.Lock()
+			nn := w.objNames[obj]
+			w.mu.Unlock()
+			w.OnYieldSite(site, detail, nn)
+		}
 		if w.Barriers[site] {
 			// not a scheduling choice: hold the caller until everything else has
 			// settled, then let it go (one barrier at a time, in key order)
@@ -159,7 +173,44 @@ func (w *World) installHooks() {
 			w.Park("barrier", "barrier|"+site+"|"+d)
 			return
 		}
+		// lock-yield builds (tools/lockyield): marks after every acquisition and release keep a per-goroutine count
+		// of the instrumented locks held; a point before an acquisition is used only by a goroutine that holds none
+		// (a goroutine parked while holding a mutex would stall the bubble) and never by the scheduler's own goroutine
+		if strings.HasPrefix(site, "locked:") || strings.HasPrefix(site, "unlocked:") {
+			if !w.lockMarks {
+				return
+			}
+			g := goid()
+			w.mu.Lock()
+			if site[0] == 'l' {
+				w.lockDepth[g]++
+			} else if w.lockDepth[g] > 0 {
+				w.lockDepth[g]--
+			}
+			w.mu.Unlock()
+			return
+		}
 		if !w.Yields[site] {
+			return
+		}
+		if strings.HasPrefix(site, "lock:") {
+			g := goid()
+			w.mu.Lock()
+			held := w.lockDepth[g]
+			w.mu.Unlock()
+			if held > 0 || g == w.rootG {
+				return
+			}
+			// (scenarios may want to know what a goroutine held at such a point was in the middle of)
+			in := ""
+			if w.LockYieldIn != nil {
+				var buf [8192]byte
+				in = w.LockYieldIn(string(buf[:runtime.Stack(buf[:], false)]), +1)
+			}
+			w.Park("yield", "yield|"+site+"|"+detail)
+			if in != "" {
+				w.LockYieldIn(in, -1)
+			}
 			return
 		}
 		node := "?"
@@ -204,15 +255,17 @@ func newWorld0(t *testing.T, tape *Tape) *World {
 		MaxIdle:  50 * time.Second,
 		Yields:   map[string]bool{"messagequeue.beforeSendMessage": true},
 		T:        t, Tape: tape,
-		gates:    map[string]*Event{},
-		keySeq:   map[string]int{},
-		Faults:   map[string]int{},
-		Probes:   map[string]int{},
-		traceCap: 4000,
-		Start:    time.Now(),
-		states:   map[uint64]struct{}{},
-		Nodes:    map[string]*Node{},
-		Prof:     Profile{StepCap: 3000},
+		gates:     map[string]*Event{},
+		keySeq:    map[string]int{},
+		lockDepth: map[uint64]int{},
+		rootG:     goid(),
+		Faults:    map[string]int{},
+		Probes:    map[string]int{},
+		traceCap:  4000,
+		Start:     time.Now(),
+		states:    map[uint64]struct{}{},
+		Nodes:     map[string]*Node{},
+		Prof:      Profile{StepCap: 3000},
 	}
 }
 
@@ -426,6 +479,11 @@ func RunOnce(t *testing.T, mk func() Scenario, tape *Tape, opt RunOpts) (res Res
 		if r := recover(); r != nil {
 			msg := fmt.Sprint(r)
 			if strings.Contains(msg, "deadlock") && strings.Contains(msg, "bubble") {
+				if os.Getenv("VERIF_DEBUG_LEAK") != "" {
+					fmt.Fprintln(os.Stderr, "LEAK:", msg)
+					buf := make([]byte, 1<<20)
+					os.Stderr.Write(buf[:runtime.Stack(buf, true)])
+				}
 				res.Leaked = true
 				return
 			}
@@ -688,9 +746,17 @@ func (w *World) Sync(f func()) bool {
 // Quiet reports whether nothing is in flight: no system goroutine waits at a
 // gate (callers parked at read gates do not count), no bytes or notifications
 // are under way.
-func (w *World) Quiet() bool {
+func (w *World) Quiet() bool { return w.quiet("") }
+
+// QuietBut is Quiet, not counting goroutines held at yield points whose gate key has the given prefix.
+func (w *World) QuietBut(prefix string) bool { return w.quiet(prefix) }
+
+func (w *World) quiet(but string) bool {
 	w.mu.Lock()
 	for _, g := range w.gates {
+		if but != "" && strings.HasPrefix(g.Key, but) {
+			continue
+		}
 		if g.Class != "read" {
 			w.mu.Unlock()
 			return false
@@ -779,4 +845,39 @@ func (w *World) StateSig(parts ...string) {
 		v = v<<8 | uint64(h[i])
 	}
 	w.states[v] = struct{}{}
+}
+
+// goid returns the current goroutine's id (parsed from the stack header; only used in lock-yield runs).
+func goid() uint64 {
+	var buf [64]byte
+	n := runtime.Stack(buf[:], false)
+	f := strings.Fields(string(buf[:n]))
+	if len(f) < 2 {
+		return 0
+	}
+	id, _ := strconv.ParseUint(f[1], 10, 64)
+	return id
+}
+
+// EnableLockYields turns on the scheduling points before lock acquisitions of the given files (lock-yield build).
+func (w *World) EnableLockYields(files ...string) {
+	w.lockMarks = true
+	for _, f := range files {
+		w.Yields["lock:"+f] = true
+	}
+}
+
+// markLock lets harness code that holds a mutex of its own across a call into the component count as holding a
+// lock (no lock-yield point parks the goroutine meanwhile).
+func (w *World) markLock(d int) {
+	if !w.lockMarks {
+		return
+	}
+	g := goid()
+	w.mu.Lock()
+	w.lockDepth[g] += d
+	if w.lockDepth[g] < 0 {
+		w.lockDepth[g] = 0
+	}
+	w.mu.Unlock()
 }
